@@ -117,14 +117,14 @@ def run(tier, seed):
         progs = []   # (origin, files)
         for f in sorted(glob.glob(os.path.join(C.CORPUS, "C21", "*.capy"))):
             progs.append(("corpus/" + os.path.basename(f), {"main.capy": open(f).read()}))
-        for i in range(36 if quick else 700):
+        for i in range(36 if quick else 300):
             g = rng.fork("g%d" % i)
             base, bad = M.gen_near_valid(g, size=2 + i % 3, with_core=(i % 10 == 3))
             if i % 2 == 0 or bad is None:
                 progs.append(("gen#%d/valid" % i, {"main.capy": base.text}))
             else:
                 progs.append(("gen#%d/%s" % (i, bad.sab_kind), {"main.capy": bad.text}))
-        for i in range(14 if quick else 300):
+        for i in range(14 if quick else 120):
             progs.append(("multi#%d%s" % (i, "/broken" if i % 2 else ""), multi_file(rng.fork("m%d" % i), i, i % 2 == 1)))
         ex = [(t, s) for t, s in M.corpus(("examples",))]
         r = rng.fork("ex")
@@ -190,7 +190,7 @@ def run(tier, seed):
         # ---- library level: order in which the files are loaded -------------------------------------------
         if har:
             multi = [(o, f) for o, f in progs if len(f) > 1 or "core ::" in f.get("main.capy", "")]
-            multi = multi[:(16 if quick else 400)]
+            multi = multi[:(16 if quick else 150)]
             ljobs = [(i, o) for i in range(len(multi)) for o in ("", "fwd", "rev")]
             lres = C.parallel_map(lambda j: lib_build(har, multi[j[0]][1], j[1]), ljobs)
             byp = {}
